@@ -354,6 +354,20 @@ PAYLOADS = ['garbage', 'wrongdtype', 'wrongshape', 'object', 'fortran', 'extra',
             'version3', 'byteorder', 'emptyfile', 'hdrflip', 'hdrflip']
 
 
+def wrong_shape(r, x, same_ndim=False):
+    """the elements of `x` (or a few less) stored under ANOTHER shape: size-changing or size-preserving.
+    same_ndim: the dict store slices its array with the requested slices, so a different number of dimensions is
+    an indexing error there (reported as a missing chunk), not a decodable chunk of the wrong shape"""
+    cands = []
+    if x.ndim >= 1 and x.shape[-1] > 1:
+        cands.append(np.ascontiguousarray(x[..., :-1]))
+    cands += [np.ascontiguousarray(x.T), x.reshape(-1), x.reshape(x.shape + (1,)), x.reshape((1,) + x.shape)]
+    if x.ndim >= 2:
+        cands.append(x.reshape((x.shape[0] * x.shape[1],) + x.shape[2:]))
+    cands = [c for c in cands if c.shape != x.shape and (not same_ndim or c.ndim == x.ndim)]
+    return cands[r.randrange(len(cands))]
+
+
 def gen_payload_case(rng):
     be = rng.choice(['npy', 's3', 'dict'])
     pl = rng.choice(PAYLOADS if be != 'dict' else ['wrongdtype', 'wrongshape', 'missing', 'reqobject', 'byteorder',
@@ -384,7 +398,7 @@ def run_payload_case(ctx, case, env):
                 return None
             store, expect = DictChunkStore(x=y), 'BadChunk'
         elif p == 'wrongshape':
-            store, expect = DictChunkStore(x=x[:, :-1].copy()), 'BadChunk'
+            store, expect = DictChunkStore(x=wrong_shape(r, x, same_ndim=True)), 'BadChunk'
         elif p == 'missing':
             store, expect = DictChunkStore(y=x), 'missing'
         elif p == 'reqobject':
@@ -420,7 +434,7 @@ def run_payload_case(ctx, case, env):
             setter(npy_blob(y))
             expect = 'BadChunk'
         elif p == 'wrongshape':
-            setter(npy_blob(x[:, :-1].copy()))
+            setter(npy_blob(wrong_shape(r, x)))
             expect = 'BadChunk'
         elif p == 'object':
             setter(npy_blob(np.array([[1, 'a'], [None, 2]], dtype=object), allow_pickle=True))
@@ -840,7 +854,7 @@ def run_load_case(ctx, case, env):
             setter(npy_blob(sub.astype(np.float64) if sub.dtype.kind != 'c' else sub.astype(np.complex128)))
             expect = 'BadChunk'
         elif dmg == 'wrongshape':
-            setter(npy_blob(sub[..., :-1].copy()))
+            setter(npy_blob(wrong_shape(r, sub)))
             expect = 'BadChunk'
         elif dmg == 'garbage-npy':
             setter(bytes(r.getrandbits(8) for _ in range(50)))
